@@ -712,6 +712,9 @@ def _inline_in_function(prog, fi, is_new, stats):
 _PURE_CALLS = {"len", "int", "float", "str", "bool", "abs", "min", "max", "sum", "any", "all", "tuple", "frozenset", "isinstance", "divmod", "round", "ord", "chr", "range", "enumerate", "zip"}
 
 
+_MUTATING_METHODS = ("append", "extend", "insert", "remove", "pop", "clear", "sort", "reverse", "add", "discard", "update", "setdefault", "popitem", "push_back", "pop_back", "erase", "swap", "resize")
+
+
 def _value_like(e):
     """Expressions whose repeated evaluation yields interchangeable (immutable or aliased) values."""
     if isinstance(e, (ast.Name, ast.Constant)):
@@ -732,6 +735,8 @@ def _value_like(e):
         return _value_like(e.test) and _value_like(e.body) and _value_like(e.orelse)
     if isinstance(e, ast.Tuple):
         return all(_value_like(x) for x in e.elts)
+    if isinstance(e, ast.Call) and isinstance(e.func, ast.Name) and e.func.id == "addressof" and len(e.args) == 1 and not e.keywords:
+        return _value_like(e.args[0])  # Cython `&x`: an alias of the lvalue x
     if isinstance(e, ast.Call) and isinstance(e.func, ast.Name) and e.func.id in _PURE_CALLS and not e.keywords:
         return all(_value_like(a) or isinstance(a, (ast.GeneratorExp,)) for a in e.args)
     if isinstance(e, ast.Call) and isinstance(e.func, ast.Attribute) and e.func.attr in ("is_homozygous", "is_none", "is_snv", "as_vector", "get", "keys", "values", "items", "index", "count", "startswith", "endswith") and not e.keywords:
@@ -924,6 +929,605 @@ def _split_tuple_assignments(fnode, new_locals):
     return changed
 
 
+def _plain_new_annassigns(fi, ref_fingerprints, stats):
+    """A new `x: T = value` (Cython `cdef T x = value`) statement is `x = value`: the declaration carries no behaviour the rules read."""
+    from . import alpha
+
+    locs = alpha.local_names(fi.node)
+    done = 0
+    for n in list(walk_function(fi.node)):
+        if isinstance(n, ast.AnnAssign) and n.value is not None and isinstance(n.target, ast.Name) and n.simple:
+            if alpha._fingerprint(n, locs)[0] in ref_fingerprints:
+                continue
+            blk, _p = _block_of(n)
+            if blk is None:
+                continue
+            new = ast.Assign(targets=[n.target], value=n.value, type_comment=None)
+            ast.copy_location(new, n)
+            blk[[k for k, x in enumerate(blk) if x is n][0]] = new
+            new.parent = _p
+            done += 1
+    if done:
+        stats.setdefault("#annassign", []).append("%s:%d" % (fi.qual, done))
+    return done
+
+
+def _apply_new_partials(fi, ref_locals, stats):
+    """A new local `T = functools.partial(F, a.., k=v..)` that is only ever called: T(x..) -> F(a.., x.., k=v..)."""
+    done = 0
+
+    def is_partial(v):
+        return isinstance(v, ast.Call) and ((isinstance(v.func, ast.Attribute) and v.func.attr == "partial") or (isinstance(v.func, ast.Name) and v.func.id == "partial")) and v.args and not any(isinstance(a, ast.Starred) for a in v.args) and all(k.arg for k in v.keywords)
+
+    # partial(F, ...)(x, ...) applied on the spot (after the temporary was propagated)
+    for c in [x for x in ast.walk(fi.node) if isinstance(x, ast.Call) and is_partial(x.func)]:
+        v = c.func
+        given = {k.arg for k in c.keywords}
+        c.func = v.args[0]
+        c.args = list(v.args[1:]) + list(c.args)
+        c.keywords = list(c.keywords) + [k for k in v.keywords if k.arg not in given]
+        ast.fix_missing_locations(c)
+        stats.setdefault("#partials", []).append(fi.qual)
+        done += 1
+    if done:
+        set_parents(fi.node)
+    for n in list(walk_function(fi.node)):
+        if not (isinstance(n, ast.Assign) and len(n.targets) == 1 and isinstance(n.targets[0], ast.Name) and n.targets[0].id not in ref_locals):
+            continue
+        v = n.value
+        if not (isinstance(v, ast.Call) and ((isinstance(v.func, ast.Attribute) and v.func.attr == "partial") or (isinstance(v.func, ast.Name) and v.func.id == "partial")) and v.args and not any(isinstance(a, ast.Starred) for a in v.args) and all(k.arg for k in v.keywords)):
+            continue
+        name = n.targets[0].id
+        occ = [x for x in ast.walk(fi.node) if isinstance(x, ast.Name) and x.id == name]
+        stores = [x for x in occ if isinstance(x.ctx, (ast.Store, ast.Del))]
+        loads = [x for x in occ if isinstance(x.ctx, ast.Load)]
+        if len(stores) != 1 or not loads or any(not (isinstance(getattr(x, "parent", None), ast.Call) and x.parent.func is x) for x in loads):
+            continue
+        if not all(_value_like(a) for a in v.args[1:]) or not all(_value_like(k.value) for k in v.keywords):
+            continue
+        for x in loads:
+            c = x.parent
+            given = {k.arg for k in c.keywords}
+            c.func = _clone(v.args[0])
+            c.args = [_clone(a) for a in v.args[1:]] + list(c.args)
+            c.keywords = list(c.keywords) + [ast.keyword(arg=k.arg, value=_clone(k.value)) for k in v.keywords if k.arg not in given]
+            ast.fix_missing_locations(c)
+        blk, _p = _block_of(n)
+        if blk is not None:
+            blk[:] = [x for x in blk if x is not n] or [ast.copy_location(ast.Pass(), n)]
+        set_parents(fi.node)
+        stats.setdefault("#partials", []).append("%s:%s" % (fi.qual, name))
+        done += 1
+    return done
+
+
+class _NewIdioms(ast.NodeTransformer):
+    """operator.attrgetter("a") -> lambda x: x.a ; itertools.groupby(it, key=f) -> itertools.groupby(it, f)"""
+
+    def __init__(self):
+        self.n = 0
+
+    def visit_Call(self, node):
+        self.generic_visit(node)
+        f = node.func
+        nm = f.attr if isinstance(f, ast.Attribute) else (f.id if isinstance(f, ast.Name) else None)
+        if nm == "attrgetter" and len(node.args) == 1 and not node.keywords and isinstance(node.args[0], ast.Constant) and isinstance(node.args[0].value, str) and node.args[0].value.isidentifier():
+            self.n += 1
+            new = ast.Lambda(args=ast.arguments(posonlyargs=[], args=[ast.arg(arg="record")], kwonlyargs=[], kw_defaults=[], defaults=[]), body=ast.Attribute(value=ast.Name(id="record", ctx=ast.Load()), attr=node.args[0].value, ctx=ast.Load()))
+            ast.copy_location(new, node)
+            ast.fix_missing_locations(new)
+            return new
+        if nm == "islice" and len(node.args) == 3 and not node.keywords and isinstance(node.args[2], ast.Constant) and node.args[2].value is None and isinstance(node.args[1], ast.Constant) and isinstance(node.args[1].value, int) and isinstance(node.args[0], ast.Name):
+            # over a sequence the two walk the same elements (the reference slices; islice only avoids the copy)
+            self.n += 1
+            new = ast.Subscript(value=node.args[0], slice=ast.Slice(lower=node.args[1], upper=None, step=None), ctx=ast.Load())
+            ast.copy_location(new, node)
+            ast.fix_missing_locations(new)
+            return new
+        if nm == "groupby" and len(node.args) == 1 and len(node.keywords) == 1 and node.keywords[0].arg == "key":
+            self.n += 1
+            node.args = [node.args[0], node.keywords[0].value]
+            node.keywords = []
+        return node
+
+
+def _unfold_yield_from_maps(fi, ref_fingerprints, stats):
+    """A new `yield from itertools.starmap(F, IT)` / `yield from map(F, IT)` / `yield from (E for x in IT)` statement is the
+    loop that yields one element at a time (lazy either way)."""
+    from . import alpha
+
+    locs = alpha.local_names(fi.node)
+    done = 0
+    for n in list(walk_function(fi.node)):
+        if not (isinstance(n, ast.Expr) and isinstance(n.value, ast.YieldFrom)):
+            continue
+        if alpha._fingerprint(n, locs)[0] in ref_fingerprints:
+            continue
+        blk, par = _block_of(n)
+        if blk is None:
+            continue
+        src = n.value.value
+        taken = {x.id for x in ast.walk(fi.node) if isinstance(x, ast.Name)}
+        new = None
+        if isinstance(src, ast.Call) and not src.keywords and len(src.args) == 2:
+            fn = src.func.attr if isinstance(src.func, ast.Attribute) else (src.func.id if isinstance(src.func, ast.Name) else None)
+            F, IT = src.args
+            if fn == "starmap":
+                it_ = IT
+                if isinstance(it_, ast.Name):
+                    sts = [x for x in ast.walk(fi.node) if isinstance(x, ast.Name) and x.id == it_.id and isinstance(x.ctx, ast.Store)]
+                    d_ = getattr(sts[0], "parent", None) if len(sts) == 1 else None
+                    it_ = d_.value if isinstance(d_, ast.Assign) else it_
+                isgb = isinstance(it_, ast.Call) and ((isinstance(it_.func, ast.Attribute) and it_.func.attr == "groupby") or (isinstance(it_.func, ast.Name) and it_.func.id == "groupby"))
+                if isgb:
+                    k_, g_ = "key", "group"
+                    while k_ in taken or g_ in taken:
+                        k_, g_ = k_ + "_", g_ + "_"
+                    tgt = ast.Tuple(elts=[ast.Name(id=k_, ctx=ast.Store()), ast.Name(id=g_, ctx=ast.Store())], ctx=ast.Store())
+                    call = ast.Call(func=F, args=[ast.Name(id=k_, ctx=ast.Load()), ast.Name(id=g_, ctx=ast.Load())], keywords=[])
+                else:
+                    a_ = "args"
+                    while a_ in taken:
+                        a_ += "_"
+                    tgt = ast.Name(id=a_, ctx=ast.Store())
+                    call = ast.Call(func=F, args=[ast.Starred(value=ast.Name(id=a_, ctx=ast.Load()), ctx=ast.Load())], keywords=[])
+                new = ast.For(target=tgt, iter=IT, body=[ast.Expr(value=ast.Yield(value=call))], orelse=[], type_comment=None)
+            elif fn == "map":
+                a_ = "item"
+                while a_ in taken:
+                    a_ += "_"
+                new = ast.For(target=ast.Name(id=a_, ctx=ast.Store()), iter=IT, body=[ast.Expr(value=ast.Yield(value=ast.Call(func=F, args=[ast.Name(id=a_, ctx=ast.Load())], keywords=[])))], orelse=[], type_comment=None)
+        elif isinstance(src, ast.GeneratorExp) and len(src.generators) == 1 and not src.generators[0].is_async:
+            g = src.generators[0]
+            vn = {x.id for x in ast.walk(g.target) if isinstance(x, ast.Name)}
+            if not (vn & (taken - {x.id for x in ast.walk(src) if isinstance(x, ast.Name)})):
+                body = [ast.Expr(value=ast.Yield(value=src.elt))]
+                if g.ifs:
+                    body = [ast.If(test=g.ifs[0] if len(g.ifs) == 1 else ast.BoolOp(op=ast.And(), values=list(g.ifs)), body=body, orelse=[])]
+                tgt = _clone(g.target)
+                for x in ast.walk(tgt):
+                    if hasattr(x, "ctx"):
+                        x.ctx = ast.Store()
+                new = ast.For(target=tgt, iter=g.iter, body=body, orelse=[], type_comment=None)
+        if new is None:
+            continue
+        ast.copy_location(new, n)
+        ast.fix_missing_locations(new)
+        blk[[k for k, x in enumerate(blk) if x is n][0]] = new
+        stats.setdefault("#yield_from", []).append(fi.qual)
+        done += 1
+    return done
+
+
+def _deforest_new_lists(fi, ref_locals, stats):
+    """Producer/consumer fusion through a new intermediate list:  L = []; ... L.append(X) ...; <consumers of L>  where every
+    consumer follows the producers in the block of the initialisation and is one of
+        for T in L: BODY        |   ACC.update(E for T in L if C)   |   TARGET = {E for T in L if C}  /  [E for T in L if C]
+    becomes: at each append site `T = X` followed by BODY / `if C: ACC.add(E)` / `if C: acc.add(E)` (acc a fresh accumulator
+    that TARGET receives where the comprehension stood).  The normal form assumes what a reviewer of such a split checks:
+    the consumers do not feed back into the producers."""
+    done = 0
+    for n in list(walk_function(fi.node)):
+        if not (isinstance(n, (ast.Assign, ast.AnnAssign)) and isinstance(n.value, ast.List) and not n.value.elts):
+            continue
+        tgt = n.targets[0] if isinstance(n, ast.Assign) and len(n.targets) == 1 else (n.target if isinstance(n, ast.AnnAssign) else None)
+        if not (isinstance(tgt, ast.Name) and tgt.id not in ref_locals):
+            continue
+        L = tgt.id
+        blk, par = _block_of(n)
+        if blk is None:
+            continue
+        i0 = [k for k, x in enumerate(blk) if x is n][0]
+        occ = [x for x in ast.walk(fi.node) if isinstance(x, ast.Name) and x.id == L and x is not tgt]
+        if not occ or any(isinstance(x.ctx, (ast.Store, ast.Del)) for x in occ):
+            continue
+        appends, consumers = [], []
+        ok = True
+        for x in occ:
+            p = getattr(x, "parent", None)
+            if isinstance(p, ast.Attribute) and p.attr == "append" and isinstance(getattr(p, "parent", None), ast.Call) and p.parent.func is p and len(p.parent.args) == 1 and not p.parent.keywords and isinstance(getattr(p.parent, "parent", None), ast.Expr):
+                appends.append(p.parent.parent)
+                continue
+            if isinstance(p, ast.For) and p.iter is x and not p.orelse and isinstance(p.target, (ast.Name, ast.Tuple)) and any(y is p for y in blk) and not _contains(p.body, (ast.Break, ast.Return, ast.Continue, ast.Yield, ast.YieldFrom)):
+                consumers.append(("for", p, p))
+                continue
+            if isinstance(p, ast.comprehension) and p.iter is x and not p.is_async:
+                comp = getattr(p, "parent", None)
+                if isinstance(comp, (ast.GeneratorExp, ast.ListComp, ast.SetComp)) and len(comp.generators) == 1:
+                    st = _stmt_of(comp)
+                    cp = getattr(comp, "parent", None)
+                    if any(y is st for y in blk):
+                        if isinstance(cp, ast.Call) and isinstance(cp.func, ast.Attribute) and cp.func.attr in ("update", "extend") and cp.args == [comp] and isinstance(st, ast.Expr) and st.value is cp:
+                            consumers.append(("update", st, comp))
+                            continue
+                        if isinstance(comp, (ast.SetComp, ast.ListComp)) and isinstance(st, ast.Assign) and st.value is comp and len(st.targets) == 1:
+                            consumers.append(("assign", st, comp))
+                            continue
+            ok = False
+            break
+        if not ok or not appends or not consumers:
+            continue
+        order = {}
+        for k, x in enumerate(blk):
+            for y in ast.walk(x):
+                order[id(y)] = k
+        if any(id(a) not in order or order[id(a)] <= i0 for a in appends):
+            continue
+        last_app = max(order[id(a)] for a in appends)
+        if any(order[id(st)] <= last_app for _, st, _ in consumers):
+            continue
+        # no feedback in either direction: what the consumers read (besides their own element variables) is not written in the
+        # producer region, and what they write or mutate is not read there
+        first_cons = min(order[id(st)] for _, st, _ in consumers)
+        region = blk[i0 + 1:first_cons]
+        reg_stores, reg_loads = set(), set()
+        for st_ in region:
+            for x in ast.walk(st_):
+                if isinstance(x, ast.Name):
+                    (reg_stores if isinstance(x.ctx, (ast.Store, ast.Del)) else reg_loads).add(x.id)
+        cons_loads, cons_writes, own = set(), set(), set()
+        for kind, st_, c_ in consumers:
+            code = [c_.body] if kind == "for" else [[ast.Expr(value=c_.elt)] + [ast.Expr(value=i_) for i_ in c_.generators[0].ifs]]
+            tg_ = c_.target if kind == "for" else c_.generators[0].target
+            own |= {x.id for x in ast.walk(tg_) if isinstance(x, ast.Name)}
+            for b_ in code[0]:
+                for x in ast.walk(b_):
+                    if isinstance(x, ast.Name):
+                        if isinstance(x.ctx, (ast.Store, ast.Del)):
+                            cons_writes.add(x.id)
+                        else:
+                            cons_loads.add(x.id)
+                    if isinstance(x, (ast.Attribute, ast.Subscript)) and isinstance(x.ctx, (ast.Store, ast.Del)):
+                        r_ = x
+                        while isinstance(r_, (ast.Attribute, ast.Subscript)):
+                            r_ = r_.value
+                        if isinstance(r_, ast.Name):
+                            cons_writes.add(r_.id)
+                    if isinstance(x, ast.Call) and isinstance(x.func, ast.Attribute):
+                        r_ = x.func.value
+                        while isinstance(r_, (ast.Attribute, ast.Subscript)):
+                            r_ = r_.value
+                        if isinstance(r_, ast.Name):
+                            cons_writes.add(r_.id)
+            if kind == "update":
+                r_ = st_.value.func.value
+                while isinstance(r_, (ast.Attribute, ast.Subscript)):
+                    r_ = r_.value
+                if isinstance(r_, ast.Name):
+                    cons_writes.add(r_.id)
+        if ((cons_loads - own) & reg_stores) or ((cons_writes - own) & (reg_loads | reg_stores) - {L}):
+            continue
+        taken = {x.id for x in ast.walk(fi.node) if isinstance(x, ast.Name)}
+        pre = []
+        plans = []
+        for kind, st, c in sorted(consumers, key=lambda t: order[id(t[1])]):
+            if kind == "for":
+                plans.append(("for", c.target, None, None, c.body, None))
+            else:
+                g = c.generators[0]
+                cond = None if not g.ifs else (g.ifs[0] if len(g.ifs) == 1 else ast.BoolOp(op=ast.And(), values=list(g.ifs)))
+                if kind == "update":
+                    recv = st.value.func.value
+                    meth = "add" if st.value.func.attr == "update" else "append"
+                    plans.append(("feed", g.target, cond, c.elt, None, (recv, meth)))
+                else:
+                    acc = "collected"
+                    k_ = 0
+                    while acc in taken:
+                        k_ += 1
+                        acc = "collected_%d" % k_
+                    taken.add(acc)
+                    isset = isinstance(c, ast.SetComp)
+                    init = ast.Assign(targets=[ast.Name(id=acc, ctx=ast.Store())], value=(ast.Call(func=ast.Name(id="set", ctx=ast.Load()), args=[], keywords=[]) if isset else ast.List(elts=[], ctx=ast.Load())), type_comment=None)
+                    ast.copy_location(init, n)
+                    pre.append(init)
+                    plans.append(("feed", g.target, cond, c.elt, None, (ast.Name(id=acc, ctx=ast.Load()), "add" if isset else "append")))
+                    st.value = ast.Name(id=acc, ctx=ast.Load())
+        for a in appends:
+            x_ = a.value.args[0]
+            repl = []
+            for kind, t_, cond, elt, body, sink in plans:
+                tt = _clone(t_)
+                for y in ast.walk(tt):
+                    if hasattr(y, "ctx"):
+                        y.ctx = ast.Store()
+                bind = ast.Assign(targets=[tt], value=_clone(x_), type_comment=None)
+                repl.append(bind)
+                if kind == "for":
+                    repl.extend(_clone(b_) for b_ in body)
+                else:
+                    call = ast.Expr(value=ast.Call(func=ast.Attribute(value=_clone(sink[0]), attr=sink[1], ctx=ast.Load()), args=[_clone(elt)], keywords=[]))
+                    repl.append(ast.If(test=_clone(cond), body=[call], orelse=[]) if cond is not None else call)
+            for r_ in repl:
+                ast.copy_location(r_, a)
+                ast.fix_missing_locations(r_)
+            ab, _ap = _block_of(a)
+            if ab is None:
+                ok = False
+                break
+            ai = [k for k, x in enumerate(ab) if x is a][0]
+            ab[ai:ai + 1] = repl
+        if not ok:
+            continue
+        drop = {id(st) for kind, st, _ in consumers if kind in ("for", "update")} | {id(n)}
+        pos0 = [k for k, x in enumerate(blk) if x is n][0]
+        blk[pos0:pos0] = pre
+        blk[:] = [x for x in blk if id(x) not in drop] or [ast.copy_location(ast.Pass(), n)]
+        set_parents(fi.node)
+        stats.setdefault("#deforested", []).append("%s:%s" % (fi.qual, L))
+        done += 1
+    return done
+
+
+def _fold_accumulator_loops(fi, ref_fingerprints, stats):
+    """A new loop whose body only feeds accumulators -- `L.append(E)`, `S.add(E)`, `n += E` under pure if/elif/else conditions --
+    with every accumulator initialised by a plain statement directly before the loop ([] / set() / 0), becomes one
+    comprehension per accumulator: L = [E for T in IT if PATH], n = sum(E for T in IT if PATH).  (Pure conditions and
+    elements only: names, attributes, subscripts, comparisons, len() and method calls without arguments on the element.)"""
+    from . import alpha
+
+    locs = alpha.local_names(fi.node)
+    done = 0
+
+    def pure(e):
+        for x in ast.walk(e):
+            if isinstance(x, ast.Call):
+                f = x.func
+                if isinstance(f, ast.Name) and f.id in ("len", "int", "str", "abs", "min", "max", "bool", "float"):
+                    continue
+                if isinstance(f, ast.Attribute) and not x.args and not x.keywords:
+                    continue  # element.method()
+                return False
+            if isinstance(x, (ast.Yield, ast.YieldFrom, ast.Await, ast.NamedExpr, ast.Lambda)):
+                return False
+        return True
+
+    for n in list(walk_function(fi.node)):
+        if not (isinstance(n, ast.For) and not n.orelse and _pure_iter(n.iter)):
+            continue
+        if _in_reference(fi, n, locs, ref_fingerprints):
+            continue
+        blk, par = _block_of(n)
+        if blk is None:
+            continue
+        idx = [k for k, x in enumerate(blk) if x is n][0]
+        # leading plain temporaries of the body (`size = len(block)`) are substituted
+        body = list(n.body)
+        env = {}
+        while body and isinstance(body[0], ast.Assign) and len(body[0].targets) == 1 and isinstance(body[0].targets[0], ast.Name) and _value_like(body[0].value) and pure(body[0].value):
+            h = ast.Expression(body=_clone(body[0].value))
+            _Subst(env).visit(h)
+            env[body[0].targets[0].id] = h.body
+            body = body[1:]
+        if not body:
+            continue
+        feeds = []  # (acc name, kind, element expr, [conditions])
+        ok = True
+
+        def walk_block(stmts, conds):
+            nonlocal ok
+            for st in stmts:
+                if isinstance(st, ast.If):
+                    if not pure(st.test):
+                        ok = False
+                        return
+                    walk_block(st.body, conds + [st.test])
+                    if st.orelse:
+                        walk_block(st.orelse, conds + [_negated(st.test)])
+                elif isinstance(st, ast.Expr) and isinstance(st.value, ast.Call) and isinstance(st.value.func, ast.Attribute) and st.value.func.attr in ("append", "add") and isinstance(st.value.func.value, ast.Name) and len(st.value.args) == 1 and not st.value.keywords and pure(st.value.args[0]):
+                    feeds.append((st.value.func.value.id, st.value.func.attr, st.value.args[0], list(conds)))
+                elif isinstance(st, ast.AugAssign) and isinstance(st.op, ast.Add) and isinstance(st.target, ast.Name) and pure(st.value):
+                    feeds.append((st.target.id, "sum", st.value, list(conds)))
+                elif isinstance(st, ast.Pass):
+                    pass
+                else:
+                    ok = False
+                    return
+
+        walk_block(body, [])
+        if not ok or not feeds:
+            continue
+        accs = []
+        for a_, k_, _e, _c in feeds:
+            if a_ not in accs:
+                accs.append(a_)
+        if any(len({k_ for a2, k_, _e, _c in feeds if a2 == a_}) != 1 or sum(1 for a2, *_r in feeds if a2 == a_) != 1 for a_ in accs):
+            continue  # one feed per accumulator
+        tn = {x.id for x in ast.walk(n.target) if isinstance(x, ast.Name)}
+        if any(a_ in tn or a_ in env for a_ in accs):
+            continue
+        # initialisations: the statements directly before the loop (in any order), nothing else reads the accumulators inside the loop
+        inits = {}
+        j = idx - 1
+        while j >= 0 and len(inits) < len(accs):
+            st = blk[j]
+            tgt = st.targets[0] if isinstance(st, ast.Assign) and len(st.targets) == 1 else (st.target if isinstance(st, ast.AnnAssign) and st.value is not None else None)
+            if isinstance(tgt, ast.Name) and tgt.id in accs and tgt.id not in inits:
+                inits[tgt.id] = st
+                j -= 1
+                continue
+            if isinstance(tgt, ast.Name) and _value_like(st.value):
+                j -= 1
+                continue  # an unrelated plain assignment in between
+            break
+        if set(inits) != set(accs):
+            continue
+        good = True
+        for a_, k_, _e, _c in feeds:
+            iv = inits[a_].value
+            want = {"append": ("[]", "list()"), "add": ("set()",), "sum": ("0",)}[k_]
+            if ast.unparse(iv) not in want:
+                good = False
+            if any(isinstance(x, ast.Name) and x.id == a_ for c_ in _c for x in ast.walk(c_)) or any(isinstance(x, ast.Name) and x.id == a_ for x in ast.walk(_e)):
+                good = False
+        if not good:
+            continue
+        new_stmts = []
+        for a_, k_, e_, cs in feeds:
+            def sub(x):
+                h = ast.Expression(body=_clone(x))
+                _Subst(env).visit(h)
+                return h.body
+            gen = ast.comprehension(target=_clone(n.target), iter=_clone(n.iter), ifs=[sub(c_) for c_ in cs], is_async=0)
+            if len(gen.ifs) > 1:
+                gen.ifs = [ast.BoolOp(op=ast.And(), values=gen.ifs)]
+            if k_ == "append":
+                val = ast.ListComp(elt=sub(e_), generators=[gen])
+            elif k_ == "add":
+                val = ast.SetComp(elt=sub(e_), generators=[gen])
+            else:
+                val = ast.Call(func=ast.Name(id="sum", ctx=ast.Load()), args=[ast.GeneratorExp(elt=sub(e_), generators=[gen])], keywords=[])
+            st = ast.Assign(targets=[ast.Name(id=a_, ctx=ast.Store())], value=val, type_comment=None)
+            ast.copy_location(st, n)
+            ast.fix_missing_locations(st)
+            new_stmts.append(st)
+        drop = {id(x) for x in inits.values()}
+        pos = [k for k, x in enumerate(blk) if x is n][0]
+        blk[pos:pos + 1] = new_stmts
+        blk[:] = [x for x in blk if id(x) not in drop]
+        set_parents(fi.node)
+        stats.setdefault("#accumulator_loops", []).append(fi.qual)
+        done += 1
+    return done
+
+
+def _sort_to_sorted(fi, ref_fingerprints, stats):
+    """A new `L.sort()` directly after the (single) plain definition `L = <expr>` is `L = sorted(<expr>)`."""
+    from . import alpha
+
+    locs = alpha.local_names(fi.node)
+    done = 0
+    for n in list(walk_function(fi.node)):
+        if not (isinstance(n, ast.Expr) and isinstance(n.value, ast.Call) and isinstance(n.value.func, ast.Attribute) and n.value.func.attr == "sort" and isinstance(n.value.func.value, ast.Name) and not n.value.args and not n.value.keywords):
+            continue  # only the plain ascending sort: an ordering with key / reverse is left for the rules to read as written
+        if alpha._fingerprint(n, locs)[0] in ref_fingerprints:
+            continue
+        blk, par = _block_of(n)
+        if blk is None:
+            continue
+        i = [k for k, x in enumerate(blk) if x is n][0]
+        name = n.value.func.value.id
+        j = i - 1
+        while j >= 0 and not any(isinstance(x, ast.Name) and x.id == name for x in ast.walk(blk[j])):
+            j -= 1
+        if j < 0:
+            continue
+        d = blk[j]
+        if not (isinstance(d, ast.Assign) and len(d.targets) == 1 and isinstance(d.targets[0], ast.Name) and d.targets[0].id == name and isinstance(d.value, (ast.ListComp, ast.List, ast.Call))):
+            continue
+        if isinstance(d.value, ast.Call) and not (isinstance(d.value.func, ast.Name) and d.value.func.id in ("list", "sorted")):
+            continue
+        inner = d.value
+        if isinstance(inner, ast.Call) and isinstance(inner.func, ast.Name) and inner.func.id == "list" and len(inner.args) == 1 and not inner.keywords:
+            inner = inner.args[0]  # sorted() copies anyway
+        if isinstance(inner, ast.ListComp):
+            inner = ast.GeneratorExp(elt=inner.elt, generators=inner.generators)
+        d.value = ast.Call(func=ast.Name(id="sorted", ctx=ast.Load()), args=[inner], keywords=list(n.value.keywords))
+        ast.fix_missing_locations(d)
+        del blk[i]
+        set_parents(fi.node)
+        stats.setdefault("#sorted", []).append(fi.qual)
+        done += 1
+    return done
+
+
+def _fold_bool_returns(fi, ref_fingerprints, stats):
+    """New guard clauses of a predicate:  `if C: return False` + `return E`  ->  `return (not C) and E`;
+    `if C: return True` + `return E`  ->  `return C or E`  (same evaluation order and short-circuiting)."""
+    from . import alpha
+
+    locs = alpha.local_names(fi.node)
+    done = 0
+    changed = True
+    while changed:
+        changed = False
+        for n in list(walk_function(fi.node)):
+            if not (isinstance(n, ast.If) and not n.orelse and len(n.body) == 1 and isinstance(n.body[0], ast.Return) and isinstance(n.body[0].value, ast.Constant) and isinstance(n.body[0].value.value, bool)):
+                continue
+            blk, par = _block_of(n)
+            if blk is None:
+                continue
+            i = [k for k, x in enumerate(blk) if x is n][0]
+            if i + 1 >= len(blk) or not isinstance(blk[i + 1], ast.Return) or blk[i + 1].value is None:
+                continue
+            if _in_reference(fi, n, locs, ref_fingerprints):
+                continue
+            nxt = blk[i + 1].value
+            if n.body[0].value.value:
+                val = ast.BoolOp(op=ast.Or(), values=[n.test, nxt])
+            else:
+                val = ast.BoolOp(op=ast.And(), values=[_negated(n.test), nxt])
+            # flatten nested same-operator BoolOps
+            flat = []
+            for v in val.values:
+                if isinstance(v, ast.BoolOp) and type(v.op) is type(val.op):
+                    flat.extend(v.values)
+                else:
+                    flat.append(v)
+            val.values = flat
+            new = ast.Return(value=val)
+            ast.copy_location(new, n)
+            ast.fix_missing_locations(new)
+            blk[i:i + 2] = [new]
+            set_parents(fi.node)
+            done += 1
+            changed = True
+            break
+    if done:
+        stats.setdefault("#bool_returns", []).append("%s:%d" % (fi.qual, done))
+    return done
+
+
+def _unroll_new_quantifiers(fi, ref_fingerprints, stats):
+    """In a new statement, all(E for x in (a, b, ..)) / any(..) over a short literal sequence is E[a] and E[b] .. / E[a] or E[b] .."""
+    from . import alpha
+
+    locs = alpha.local_names(fi.node)
+    done = 0
+    for c in [x for x in ast.walk(fi.node) if isinstance(x, ast.Call) and isinstance(x.func, ast.Name) and x.func.id in ("all", "any") and len(x.args) == 1 and not x.keywords and isinstance(x.args[0], (ast.GeneratorExp, ast.ListComp))]:
+        g0 = c.args[0]
+        if len(g0.generators) != 1 or g0.generators[0].ifs or g0.generators[0].is_async:
+            continue
+        g = g0.generators[0]
+        it = g.iter
+        if not (isinstance(it, (ast.Tuple, ast.List)) and 1 <= len(it.elts) <= 4 and all(_value_like(e) for e in it.elts)):
+            continue
+        st = _stmt_of(c)
+        if st is None or _in_reference(fi, st, locs, ref_fingerprints):
+            continue
+        terms = []
+        ok = True
+        for e in it.elts:
+            if isinstance(g.target, ast.Name):
+                mp = {g.target.id: e}
+            elif isinstance(g.target, ast.Tuple) and isinstance(e, ast.Tuple) and len(e.elts) == len(g.target.elts) and all(isinstance(t, ast.Name) for t in g.target.elts):
+                mp = {t.id: v for t, v in zip(g.target.elts, e.elts)}
+            else:
+                ok = False
+                break
+            holder = ast.Expression(body=_clone(g0.elt))
+            _Subst(mp).visit(holder)
+            terms.append(holder.body)
+        if not ok:
+            continue
+        new = terms[0] if len(terms) == 1 else ast.BoolOp(op=ast.And() if c.func.id == "all" else ast.Or(), values=terms)
+        p = c.parent
+        for f in p._fields:
+            v = getattr(p, f, None)
+            if v is c:
+                setattr(p, f, new)
+            elif isinstance(v, list):
+                for k_, z in enumerate(v):
+                    if z is c:
+                        v[k_] = new
+        ast.copy_location(new, c)
+        ast.fix_missing_locations(new)
+        set_parents(fi.node)
+        stats.setdefault("#quantifiers", []).append(fi.qual)
+        done += 1
+    return done
+
+
 def _reused_names(fi, ref_locals, params):
     """Reference names all of whose bindings in the current function are *new* plain assignments: the refactoring re-used the
     name for a temporary (the reference's own binding, e.g. a loop target, went away or was split off)."""
@@ -933,12 +1537,15 @@ def _reused_names(fi, ref_locals, params):
     if fps is None:
         return set()
     locs = alpha.local_names(fi.node)
+    ref_assigned = getattr(fi, "_ref_assigned", set())
     by = {}
     for n in ast.walk(fi.node):
         if isinstance(n, ast.Name) and isinstance(n.ctx, (ast.Store, ast.Del)) and n.id in ref_locals and n.id not in params:
             by.setdefault(n.id, []).append(n)
     out = set()
     for name, sts in by.items():
+        if name in ref_assigned:
+            continue  # the reference assigns this variable itself: a new assignment is a changed definition, not a re-used name
         ok = True
         for st in sts:
             d = getattr(st, "parent", None)
@@ -1028,7 +1635,11 @@ def _propagate_temps(fi, ref_locals, stats):
                     ok = False
                     break
                 cover.setdefault(id(owner_def[1]), []).append(un)
-            if not ok or any(isinstance(x, (ast.Yield, ast.YieldFrom, ast.Await, ast.NamedExpr, ast.Lambda)) for _, d, _, _ in defs for x in ast.walk(d.value)):
+            def closed_lambda(lm):
+                own = {a_.arg for a_ in lm.args.args + lm.args.posonlyargs + lm.args.kwonlyargs}
+                return not ({x.id for x in ast.walk(lm.body) if isinstance(x, ast.Name)} - own) & bound
+
+            if not ok or any(isinstance(x, (ast.Yield, ast.YieldFrom, ast.Await, ast.NamedExpr)) or (isinstance(x, ast.Lambda) and not closed_lambda(x)) for _, d, _, _ in defs for x in ast.walk(d.value)):
                 continue
             # an expression that creates a fresh object (display, comprehension, constructor or any other call) is an
             # identity, not a value: it may only be moved to a single use, and never to a place where it is mutated
@@ -1076,6 +1687,59 @@ def _propagate_temps(fi, ref_locals, stats):
                 d_loops = {id(l) for l in loops_around(d)}
                 last_use = max(order[id(un)] for un in my_uses)
                 inside_def = {id(x) for x in ast.walk(d)}
+                # objects read through attributes / subscripts: a store or mutating call along the same access path between
+                # the definition and the last use changes what the expression would yield there (paths: x.a.b, x[] ...;
+                # two paths interfere when one is a prefix of the other)
+                def apath(x):
+                    parts = []
+                    while isinstance(x, (ast.Attribute, ast.Subscript)):
+                        parts.append(x.attr if isinstance(x, ast.Attribute) else "[]")
+                        x = x.value
+                    if isinstance(x, ast.Name):
+                        return (x.id,) + tuple(reversed(parts)), x
+                    return None, None
+
+                load_paths = set()
+                for x in ast.walk(e):
+                    if isinstance(x, (ast.Attribute, ast.Subscript)) and isinstance(x.ctx, ast.Load) and not isinstance(getattr(x, "parent", None), (ast.Attribute, ast.Subscript)):
+                        pth, _r = apath(x)
+                        if pth:
+                            load_paths.add(pth)
+                    elif isinstance(x, (ast.Attribute, ast.Subscript)) and isinstance(x.ctx, ast.Load):
+                        pth, _r = apath(x)
+                        if pth and isinstance(getattr(x, "parent", None), ast.Call):
+                            load_paths.add(pth)
+                if load_paths:
+                    use_ids = {id(un) for un in my_uses}
+                    for x in ast.walk(fnode):
+                        hit = None
+                        if isinstance(x, (ast.Attribute, ast.Subscript)) and isinstance(x.ctx, (ast.Store, ast.Del)):
+                            hit = x
+                        elif isinstance(x, ast.Call) and isinstance(x.func, ast.Attribute) and x.func.attr in _MUTATING_METHODS:
+                            hit = x.func.value
+                        if hit is None or id(x) not in order:
+                            continue
+                        if not (order[id(d)] < order[id(x)] < last_use):
+                            continue
+                        if isinstance(x, (ast.Attribute, ast.Subscript)):
+                            # the target of an assignment is stored after its right-hand side was evaluated: a use inside
+                            # the value of the same statement still sees the old object
+                            st_x = _stmt_of(x)
+                            if isinstance(st_x, (ast.Assign, ast.AugAssign, ast.AnnAssign)) and st_x.value is not None and not any(order[id(un)] > order[id(x)] and not any(z is un for z in ast.walk(st_x.value)) for un in my_uses):
+                                continue
+                        hp, r_ = apath(hit)
+                        if hp is None:
+                            continue
+                        if id(r_) in use_ids:
+                            if max(order[id(un)] for un in my_uses) == order[id(r_)]:
+                                continue  # the store goes through the temporary itself and is its last use
+                            clash = True
+                            break
+                        if any(hp[: len(lp)] == lp or lp[: len(hp)] == hp for lp in load_paths):
+                            clash = True
+                            break
+                    if clash:
+                        break
                 for nm in free:
                     for sn in all_stores.get(nm, []):
                         if sn is st or id(sn) in inside_def:
@@ -1103,6 +1767,8 @@ def _propagate_temps(fi, ref_locals, stats):
                 for un in cover.get(id(d), []):
                     p = un.parent
                     new = _clone(e)
+                    if isinstance(new, ast.Call) and isinstance(new.func, ast.Name) and new.func.id == "addressof" and isinstance(p, (ast.Attribute, ast.Subscript)) and p.value is un:
+                        new = new.args[0]  # p->field: the pointer is dereferenced on use
                     for f in p._fields:
                         v = getattr(p, f, None)
                         if v is un:
@@ -1293,26 +1959,43 @@ def _unfold_filtered_loops(fi, ref_fingerprints, stats):
 
     locs = alpha.local_names(fi.node)
     done = 0
+    ref_locals = getattr(fi, "_ref_locals", None)
     for n in list(walk_function(fi.node)):
-        if not (isinstance(n, ast.For) and not n.orelse and isinstance(n.iter, (ast.GeneratorExp, ast.ListComp))):
+        if not (isinstance(n, ast.For) and not n.orelse):
             continue
         c = n.iter
+        if isinstance(c, ast.Name) and ref_locals is not None and c.id not in ref_locals:
+            # a new temporary bound once to the comprehension (it may have further readers: they keep the temporary)
+            sts = [x for x in ast.walk(fi.node) if isinstance(x, ast.Name) and x.id == c.id and isinstance(x.ctx, (ast.Store, ast.Del))]
+            d_ = getattr(sts[0], "parent", None) if len(sts) == 1 else None
+            if isinstance(d_, ast.Assign) and len(d_.targets) == 1 and isinstance(d_.value, (ast.ListComp, ast.GeneratorExp)):
+                c = _clone(d_.value)
+        if not isinstance(c, (ast.GeneratorExp, ast.ListComp)):
+            continue
         if len(c.generators) != 1 or not c.generators[0].ifs or c.generators[0].is_async:
             continue
         g = c.generators[0]
-        if not (isinstance(g.target, ast.Name) and isinstance(c.elt, ast.Name) and c.elt.id == g.target.id and isinstance(n.target, ast.Name)):
+
+        def flat(t):
+            return [x.id for x in t.elts] if isinstance(t, ast.Tuple) and all(isinstance(x, ast.Name) for x in t.elts) else ([t.id] if isinstance(t, ast.Name) else None)
+
+        gt, et, nt = flat(g.target), flat(c.elt), flat(n.target)
+        if gt is None or et is None or nt is None or gt != et or len(nt) != len(gt) or isinstance(g.target, ast.Tuple) != isinstance(n.target, ast.Tuple):
             continue
         if _in_reference(fi, n, locs, ref_fingerprints):
             continue
         cond = g.ifs[0] if len(g.ifs) == 1 else ast.BoolOp(op=ast.And(), values=list(g.ifs))
         cond = _clone(cond)
-        if g.target.id != n.target.id:
+        ren = {a: b for a, b in zip(gt, nt) if a != b}
+        if ren:
+            if set(ren.values()) & (set(gt) - set(ren)):
+                continue
             holder = ast.Expression(body=cond)
-            _Rename({g.target.id: n.target.id}).visit(holder)
+            _Rename(ren).visit(holder)
             cond = holder.body
         guard = ast.If(test=cond, body=list(n.body), orelse=[])
         ast.copy_location(guard, n)
-        n.iter = g.iter
+        n.iter = g.iter if c is n.iter else _clone(g.iter)
         n.body = [guard]
         ast.fix_missing_locations(n)
         stats.setdefault("#filtered_loops", []).append(fi.qual)
@@ -1344,9 +2027,24 @@ def _unfold_mapped_loops(fi, ref_fingerprints, stats):
         tnames = {x.id for x in ast.walk(n.target) if isinstance(x, ast.Name)}
         # the comprehension variable becomes a local of the function: it must not collide with one that is live
         others = {x.id for x in ast.walk(fi.node) if isinstance(x, ast.Name)} - {x.id for x in ast.walk(c) if isinstance(x, ast.Name)}
-        if vnames & (others | tnames):
-            continue
-        assign = ast.Assign(targets=[n.target], value=c.elt, type_comment=None)
+        overlap = vnames & (others | tnames)
+        if overlap:
+            # allowed when the shared name is passed through unchanged: (f(x), x) for x in IT  with target (y, x)
+            ok_ = isinstance(n.target, ast.Tuple) and isinstance(c.elt, ast.Tuple) and len(n.target.elts) == len(c.elt.elts) and not (vnames & others)
+            if ok_:
+                for te, ee in zip(n.target.elts, c.elt.elts):
+                    if isinstance(te, ast.Name) and te.id in overlap and not (isinstance(ee, ast.Name) and ee.id == te.id):
+                        ok_ = False
+                    if isinstance(ee, ast.Name) and ee.id in overlap and not (isinstance(te, ast.Name) and te.id == ee.id):
+                        ok_ = False
+            if not ok_:
+                continue
+            pairs = [(te, ee) for te, ee in zip(n.target.elts, c.elt.elts) if not (isinstance(te, ast.Name) and isinstance(ee, ast.Name) and te.id == ee.id)]
+            tgt_ = ast.Tuple(elts=[te for te, _ in pairs], ctx=ast.Store())
+            val_ = ast.Tuple(elts=[ee for _, ee in pairs], ctx=ast.Load())
+            assign = ast.Assign(targets=[tgt_], value=val_, type_comment=None)
+        else:
+            assign = ast.Assign(targets=[n.target], value=c.elt, type_comment=None)
         ast.copy_location(assign, n)
         body = [assign] + list(n.body)
         if g.ifs:
@@ -1768,26 +2466,30 @@ def _never_none(e):
         return e.value is not None
     if isinstance(e, (ast.List, ast.Tuple, ast.Set, ast.Dict, ast.ListComp, ast.SetComp, ast.DictComp, ast.GeneratorExp, ast.JoinedStr, ast.BinOp, ast.Compare)):
         return True
-    if isinstance(e, ast.Call) and isinstance(e.func, ast.Name) and e.func.id in _NEVER_NONE_CALLS:
-        return True
+    if isinstance(e, ast.Call) and isinstance(e.func, ast.Name) and (e.func.id in _NEVER_NONE_CALLS or e.func.id[:1].isupper()):
+        return True  # builtins that build a value, and class constructors
     return False
 
 
 def _thread_none_sentinels(fi, ref_locals, stats):
     """Jump threading over a new Optional temporary:
-        if C: T = None            if C: B2
-        else: T = E          ->   else: T = E; B
+        if C: [P1;] T = None            if C: P1; B2
+        else: [P2;] T = E          ->   else: P2; T = E; B
         if T is not None: B
         else: B2
-    (either orientation of both ifs; E an expression that cannot be None)."""
+    (either orientation of both ifs; E an expression that cannot be None; P1, P2 any statements that do not mention T)."""
     done = 0
     for n in list(walk_function(fi.node)):
-        if not (isinstance(n, ast.If) and len(n.body) == 1 and len(n.orelse) == 1 and all(isinstance(x, ast.Assign) and len(x.targets) == 1 and isinstance(x.targets[0], ast.Name) for x in (n.body[0], n.orelse[0]))):
+        if not (isinstance(n, ast.If) and n.body and n.orelse):
             continue
-        a, b = n.body[0], n.orelse[0]
+        a, b = n.body[-1], n.orelse[-1]
+        if not all(isinstance(x, ast.Assign) and len(x.targets) == 1 and isinstance(x.targets[0], ast.Name) for x in (a, b)):
+            continue
         if a.targets[0].id != b.targets[0].id or a.targets[0].id in ref_locals:
             continue
         t = a.targets[0].id
+        if any(isinstance(x, ast.Name) and x.id == t for st_ in n.body[:-1] + n.orelse[:-1] for x in ast.walk(st_)):
+            continue
         a_none = isinstance(a.value, ast.Constant) and a.value.value is None
         b_none = isinstance(b.value, ast.Constant) and b.value.value is None
         if a_none == b_none:
@@ -1806,26 +2508,71 @@ def _thread_none_sentinels(fi, ref_locals, stats):
         if not (isinstance(tt, ast.Compare) and len(tt.ops) == 1 and isinstance(tt.left, ast.Name) and tt.left.id == t and isinstance(tt.comparators[0], ast.Constant) and tt.comparators[0].value is None and isinstance(tt.ops[0], (ast.Is, ast.IsNot))):
             continue
         some_body, none_body = (nx.body, nx.orelse) if isinstance(tt.ops[0], ast.IsNot) else (nx.orelse, nx.body)
-        # T must not be needed after the pair except inside the not-None branch
         later_use = False
         for later in blk[i + 2:]:
             if any(isinstance(x, ast.Name) and x.id == t for x in ast.walk(later)):
                 later_use = True
         if later_use or any(isinstance(x, ast.Name) and x.id == t for st_ in none_body for x in ast.walk(st_)):
             continue
-        keep = b if a_none else a
-        new_some = [keep] + list(some_body)
-        new_none = list(none_body)
         if a_none:
-            n.body, n.orelse = (new_none or [ast.copy_location(ast.Pass(), n)]), new_some
+            n.body = list(n.body[:-1]) + list(none_body)
+            n.orelse = list(n.orelse) + list(some_body)
         else:
-            n.body, n.orelse = new_some, new_none
+            n.body = list(n.body) + list(some_body)
+            n.orelse = list(n.orelse[:-1]) + list(none_body)
         if not n.body:
             n.body = [ast.copy_location(ast.Pass(), n)]
         del blk[i + 1]
         ast.fix_missing_locations(n)
         stats.setdefault("#sentinels", []).append("%s:%s" % (fi.qual, t))
         done += 1
+    return done
+
+
+def _project_ctor_fields(prog, fi, ref_locals, stats):
+    """A new local `T = Cls(a, b, ...)` of a record class of the package (dataclass / NamedTuple with annotated fields and no
+    __init__): a read of `T.field` is the constructor argument given for that field (value-like arguments only)."""
+    done = 0
+    for n in list(walk_function(fi.node)):
+        if not (isinstance(n, ast.Assign) and len(n.targets) == 1 and isinstance(n.targets[0], ast.Name) and n.targets[0].id not in ref_locals and isinstance(n.value, ast.Call) and isinstance(n.value.func, ast.Name)):
+            continue
+        t = n.targets[0].id
+        if sum(1 for x in ast.walk(fi.node) if isinstance(x, ast.Name) and x.id == t and isinstance(x.ctx, (ast.Store, ast.Del))) != 1:
+            continue
+        cls = None
+        for q, c in prog.classes.items():
+            if q.rsplit(".", 1)[-1] == n.value.func.id and c.module.kind in ("py", "pyx"):
+                cls = c if cls is None else False
+        if not cls:
+            continue
+        cn = cls.node
+        record_like = any((isinstance(d, ast.Name) and d.id == "dataclass") or (isinstance(d, ast.Call) and isinstance(d.func, ast.Name) and d.func.id == "dataclass") or (isinstance(d, ast.Attribute) and d.attr == "dataclass") for d in cn.decorator_list) or any((isinstance(b_, ast.Name) and b_.id == "NamedTuple") or (isinstance(b_, ast.Attribute) and b_.attr == "NamedTuple") for b_ in cn.bases)
+        if not record_like or any(isinstance(x, ast.FunctionDef) and x.name in ("__init__", "__post_init__", "__new__", "__getattr__", "__getattribute__") for x in cn.body):
+            continue
+        fields = [(x.target.id, x.value) for x in cn.body if isinstance(x, ast.AnnAssign) and isinstance(x.target, ast.Name)]
+        call = n.value
+        if any(isinstance(a, ast.Starred) for a in call.args) or any(k.arg is None for k in call.keywords) or len(call.args) > len(fields):
+            continue
+        vals = dict(zip([f for f, _ in fields], call.args))
+        for k in call.keywords:
+            vals[k.arg] = k.value
+        for x in [y for y in ast.walk(fi.node) if isinstance(y, ast.Attribute) and isinstance(y.ctx, ast.Load) and isinstance(y.value, ast.Name) and y.value.id == t]:
+            if x.attr in vals and _value_like(vals[x.attr]):
+                p = x.parent
+                new = _clone(vals[x.attr])
+                for f in p._fields:
+                    v = getattr(p, f, None)
+                    if v is x:
+                        setattr(p, f, new)
+                    elif isinstance(v, list):
+                        for k_, z in enumerate(v):
+                            if z is x:
+                                v[k_] = new
+                done += 1
+        if done:
+            set_parents(fi.node)
+    if done:
+        stats.setdefault("#ctor_fields", []).append("%s:%d" % (fi.qual, done))
     return done
 
 
@@ -2144,6 +2891,15 @@ def normalise(prog, ref):
             if ref.get("#hash:" + base(fi.qual)) == _alpha_h.exact_hash(fi.node):
                 continue  # untouched function: every normalisation below is the identity on it
             fi._ref_fps = ref_fps
+            fi._ref_locals = set().union(*[set(x[1]) for x in d]) if d else set()
+            import re as _re
+
+            ra = set()
+            for fp_, names_ in d:
+                m_ = _re.match(r"^([\s_,()\[\]*]+?)\s*(?::[^=]+)?=(?!=)", fp_)
+                if m_ and not fp_.startswith(("for ", "with ", "if ", "while ", "def ", "except", "return", "assert")):
+                    ra |= set(names_[: m_.group(1).count("_")])
+            fi._ref_assigned = ra
             dd = ref.get("#deep:" + base(fi.qual))
             fi._ref_deep = set(dd) if dd is not None else None
             ref_locals = set()
@@ -2153,6 +2909,14 @@ def normalise(prog, ref):
             if mc is None:
                 mc = mconsts[fi.module.name] = _module_consts(fi.module)
             try:
+                if _plain_new_annassigns(fi, ref_fps, stats):
+                    set_parents(fi.node)
+                tr_ = _NewIdioms()
+                tr_.visit(fi.node)
+                if tr_.n:
+                    set_parents(fi.node)
+                if _unfold_yield_from_maps(fi, ref_fps, stats):
+                    set_parents(fi.node)
                 if _unroll_new_loops(fi, ref_fps, mc, stats):
                     set_parents(fi.node)
                 if _split_new_divmod(fi, ref_fps, stats):
@@ -2173,6 +2937,12 @@ def normalise(prog, ref):
                     if _thread_none_sentinels(fi, ref_locals, stats):
                         set_parents(fi.node)
                         k += 1
+                    if _project_ctor_fields(prog, fi, ref_locals, stats):
+                        set_parents(fi.node)
+                        k += 1
+                    if _apply_new_partials(fi, ref_locals, stats):
+                        set_parents(fi.node)
+                        k += 1
                     if _unzip_new_pairs(fi, ref_locals, stats):
                         set_parents(fi.node)
                         k += 1
@@ -2183,6 +2953,21 @@ def normalise(prog, ref):
                         set_parents(fi.node)
                         k += 1
                     if _fold_search_loops(fi, ref_fps, stats):
+                        set_parents(fi.node)
+                        k += 1
+                    if _deforest_new_lists(fi, ref_locals, stats):
+                        set_parents(fi.node)
+                        k += 1
+                    if _fold_accumulator_loops(fi, ref_fps, stats):
+                        set_parents(fi.node)
+                        k += 1
+                    if _sort_to_sorted(fi, ref_fps, stats):
+                        set_parents(fi.node)
+                        k += 1
+                    if _fold_bool_returns(fi, ref_fps, stats):
+                        set_parents(fi.node)
+                        k += 1
+                    if _unroll_new_quantifiers(fi, ref_fps, stats):
                         set_parents(fi.node)
                         k += 1
                     if _unfold_filter_calls(fi, ref_fps, stats):
